@@ -18,7 +18,7 @@ ObsClause == IF Ev.open
              THEN IF ~dead /\ phase # "open" THEN "observed-open-but-model-is-not"
                   ELSE IF ~dead /\ compactor = "none" /\ Ev.tables # tables THEN "table-count-differs-from-model"
                   ELSE IF ~ObsOk(TRUE, Ev.tables, Ev.fds, Ev.maps, Ev.gor, 4) THEN "handles-not-bounded-by-live-tables"
-                  ELSE IF ~dead /\ compactor = "none" /\ (Ev.maps # tableH \/ Ev.fds # walH) THEN "handles-differ-from-model"
+                  ELSE IF ~dead /\ compactor = "none" /\ (Ev.maps # tableH \/ Ev.fds # walH) THEN "note:handles-differ-from-model"   \* exact agreement with the model is more than C19 asks for (bounded + released): a note
                   ELSE "ok"
              ELSE IF ~ObsOk(FALSE, 0, Ev.fds, Ev.maps, Ev.gor, 0) THEN "not-released-by-close"
                   ELSE IF ~dead /\ (phase # "closed" \/ handles # 0 \/ threads # 0) THEN "model-not-closed-at-closed-observation"
